@@ -7,6 +7,8 @@ import (
 	"go/types"
 	"sort"
 	"strings"
+
+	. "vh/kit"
 )
 
 type tsubst map[*types.TypeParam]types.Type
@@ -31,6 +33,8 @@ const (
 	kTime   // time.Time
 	kIfaceFn
 	kTuple
+	kAny // interface{} / any
+	kNilable // an interface type declared Nilable: ptr to its content
 )
 
 // resolve substitutes type parameters and removes aliases.
@@ -66,6 +70,11 @@ func (g *gen) kind(t types.Type, sub tsubst) tkind {
 		if droppedTypes[np] {
 			return kDropped
 		}
+		if tt := g.types[np]; tt != nil && tt.Nilable {
+			if _, isIface := t.Underlying().(*types.Interface); isIface {
+				return kNilable
+			}
+		}
 		if tt := g.types[np]; tt != nil && tt.Opaque {
 			return kOpaque
 		}
@@ -99,8 +108,8 @@ func (g *gen) kind(t types.Type, sub tsubst) tkind {
 		case u.Info()&types.IsInteger != 0 && u.Kind() != types.Uintptr:
 			return kInt
 		}
-	case *types.Slice:
-		return kSlice
+	case *types.Slice, *types.Array:
+		return kSlice // an array is a list too (a value; element assignment is not supported)
 	case *types.Map:
 		return kMap
 	case *types.Struct:
@@ -113,6 +122,9 @@ func (g *gen) kind(t types.Type, sub tsubst) tkind {
 	case *types.Signature:
 		return kFunc
 	case *types.Interface:
+		if u.NumMethods() == 0 && u.NumEmbeddeds() == 0 {
+			return kAny
+		}
 		if u.NumMethods() == 1 && u.NumEmbeddeds() == 0 {
 			return kIfaceFn
 		}
@@ -136,8 +148,12 @@ func (g *gen) typ(t types.Type, sub tsubst) string {
 		return "(option err)"
 	case kRegexp:
 		return "re"
+	case kAny:
+		return "anyv"
+	case kNilable:
+		return "(ptr " + g.nilableElem(t, sub) + ")"
 	case kSlice:
-		return "(list " + g.typ(t.Underlying().(*types.Slice).Elem(), sub) + ")"
+		return "(list " + g.typ(elemOf(t), sub) + ")"
 	case kMap:
 		m := t.Underlying().(*types.Map)
 		g.eqbFor(m.Key(), sub)
@@ -229,7 +245,9 @@ func (g *gen) zero(t types.Type, sub tsubst) string {
 		return "None"
 	case kSlice, kMap:
 		return "[]"
-	case kPtr:
+	case kAny:
+		return "ANil"
+	case kPtr, kNilable:
 		return "PNil"
 	case kStruct:
 		r := g.record(t.(*types.Named))
@@ -306,6 +324,7 @@ func (g *gen) record(n *types.Named) *recInfo {
 					reason = "dropped type"
 					return
 				}
+
 				ty = g.typ(f.Type(), nil)
 			}()
 			if reason != "" {
@@ -319,7 +338,15 @@ func (g *gen) record(n *types.Named) *recInfo {
 				setter: g.claim(fk+"#set", "set_"+tn+"_"+f.Name(), "set_"+r.name+"_"+f.Name())})
 		}
 		if len(r.fields) == 0 {
-			g.fail("struct %s.%s has no translatable field", base, tn)
+			// nothing of it is modelled: a one-element type
+			var om []string
+			for k, v := range r.omitted {
+				om = append(om, k+" ("+v+")")
+			}
+			sort.Strings(om)
+			it.name = r.name
+			it.text = fmt.Sprintf("(* %s.%s; no translatable field, fields left out: %s *)\nInductive %s : Set := %s.", base, tn, cmt(strings.Join(om, ", ")), r.name, r.ctor)
+			return
 		}
 		var b strings.Builder
 		if len(r.omitted) > 0 {
@@ -419,4 +446,144 @@ func (g *gen) view(t types.Type, sub tsubst, path string) (string, bool) {
 		it.text = fmt.Sprintf("(* %s on a value of %s: an oracle (pure) *)\nVariable %s : %s -> %s.", cmt(path), cmt(np), it.name, ty, coqT)
 	})
 	return g.use(it).name, true
+}
+
+// dynTypeName is the name of a dynamic type inside an anyv value.
+func dynTypeName(t types.Type) string { return types.TypeString(types.Unalias(t), nil) }
+
+// toAny converts a translated value of static type t to anyv.
+func (g *gen) toAny(v string, t types.Type, sub tsubst) string {
+	t = resolve(t, sub)
+	switch g.kind(t, sub) {
+	case kAny:
+		return v
+	case kString:
+		return "(AStr " + CStr(dynTypeName(t)) + " " + v + ")"
+	case kInt:
+		return "(AInt " + CStr(dynTypeName(t)) + " " + v + ")"
+	case kBool:
+		return "(ABool " + CStr(dynTypeName(t)) + " " + v + ")"
+	}
+	g.fail("conversion of a value of type %s to any is not supported (only string, integer and boolean kinds)", types.TypeString(t, nil))
+	return ""
+}
+
+// elemOf is the element type of a slice or an array.
+func elemOf(t types.Type) types.Type {
+	switch u := t.Underlying().(type) {
+	case *types.Slice:
+		return u.Elem()
+	case *types.Array:
+		return u.Elem()
+	}
+	return nil
+}
+
+// nilableElem: the Coq type of the non-nil content of a Nilable interface type.
+func (g *gen) nilableElem(t types.Type, sub tsubst) string {
+	t = resolve(t, sub)
+	np := namedPath(t)
+	tt := g.types[np]
+	if tt != nil && tt.Opaque {
+		return g.opaque(t, sub)
+	}
+	if u, ok := t.Underlying().(*types.Interface); ok && u.NumMethods() == 1 && u.NumEmbeddeds() == 0 {
+		return g.sigType(u.Method(0).Type().(*types.Signature), sub, nil)
+	}
+	g.fail("Nilable type %s is neither Opaque nor a one-method interface", np)
+	return ""
+}
+
+// nilableIsFn: the content of the Nilable interface type is a function.
+func (g *gen) nilableIsFn(t types.Type, sub tsubst) bool {
+	tt := g.types[namedPath(resolve(t, sub))]
+	return tt == nil || !tt.Opaque
+}
+
+// ptrElemType: the Coq type of what a pointer-like value (a Go pointer or a
+// Nilable interface value) points to.
+func (g *gen) ptrElemType(t types.Type, sub tsubst) string {
+	t = resolve(t, sub)
+	if p, ok := t.(*types.Pointer); ok {
+		return g.typ(p.Elem(), sub)
+	}
+	return g.nilableElem(t, sub)
+}
+
+// ifaceConv converts a translated interface value between two opaque /
+// nilable interface types (an upcast: a Variable up_A__B when the types differ).
+func (g *gen) ifaceConv(v string, from, to types.Type, sub tsubst, content bool) string {
+	from, to = resolve(from, sub), resolve(to, sub)
+	fk, tk := g.kind(from, sub), g.kind(to, sub)
+	if content && fk == kNilable {
+		fk = kOpaque // v is the non-nil content of the value
+	}
+	fp, tp := g.opaquePath(from, sub), g.opaquePath(to, sub)
+	up := ""
+	if fp != tp {
+		key := "up:" + fp + "->" + tp
+		it, ok := g.byItem[key]
+		if !ok {
+			fe, te := g.opaqueContent(from, sub), g.opaqueContent(to, sub)
+			it = g.begin("oracle", key, "upcast "+fp+" -> "+tp)
+			g.protect(it, func() {
+				it.name = g.claim(key, "up_"+fe+"__"+te)
+				it.text = fmt.Sprintf("(* a value of interface type %s used as a %s (the same dynamic value) *)\nVariable %s : %s -> %s.", cmt(fp), cmt(tp), it.name, fe, te)
+			})
+		}
+		up = g.use(it).name
+	}
+	app := func(x string) string {
+		if up == "" {
+			return x
+		}
+		return "(" + up + " " + x + ")"
+	}
+	switch {
+	case fk == kNilable && tk == kNilable:
+		if up == "" {
+			return v
+		}
+		return "(ptr_map " + up + " " + v + ")"
+	case fk != kNilable && tk == kNilable:
+		return "(PNew " + app(v) + ")"
+	case fk != kNilable && tk != kNilable:
+		return app(v)
+	}
+	g.fail("a possibly nil value of type %s is used where the non-nil %s is needed", fp, tp)
+	return ""
+}
+
+// opaqueContent: the Coq type of the (non-nil) content of an opaque / nilable opaque interface type.
+func (g *gen) opaqueContent(t types.Type, sub tsubst) string {
+	if g.kind(t, sub) == kNilable {
+		return g.nilableElem(t, sub)
+	}
+	return g.opaque(t, sub)
+}
+
+// isOpaqueIface: an interface type declared Opaque (Nilable or not).
+func (g *gen) isOpaqueIface(t types.Type, sub tsubst) bool {
+	t = resolve(t, sub)
+	if _, ok := t.Underlying().(*types.Interface); !ok {
+		return false
+	}
+	tt := g.types[namedPath(t)]
+	return tt != nil && tt.Opaque
+}
+
+// ifaceAs: the Variable deciding a type assertion between two opaque interface types.
+func (g *gen) ifaceAs(from, to types.Type, sub tsubst) string {
+	fp, tp := g.opaquePath(from, sub), g.opaquePath(to, sub)
+	key := "as:" + fp + "->" + tp
+	it, ok := g.byItem[key]
+	if !ok {
+		fe, te := g.opaqueContent(from, sub), g.opaqueContent(to, sub)
+		it = g.begin("oracle", key, "assertion "+fp+" -> "+tp)
+		g.protect(it, func() {
+			it.name = g.claim(key, "as_"+fe+"__"+te)
+			it.text = fmt.Sprintf("(* x.(%s) for a non-nil x of interface type %s: Some = the dynamic value also has that type *)\nVariable %s : %s -> option %s.", cmt(tp), cmt(fp), it.name, fe, te)
+		})
+	}
+	return g.use(it).name
 }
